@@ -21,7 +21,9 @@ EXTENDS AFMFormat, TLC, Json, CSV
 
 CONSTANTS Family, OutFile, Tier
 
-Names == {".notdef", "A", "B", "C", "L", "N", "f", "fi", "ffi", "space", "a.sc", "Euro"}
+\* "x", "H", "d", "p": the glyphs from which tools derive XHeight, CapHeight, Ascender and Descender (a header value
+\* is what the header says, also when it is 0 and such a glyph exists)
+Names == {".notdef", "A", "B", "C", "L", "N", "f", "fi", "ffi", "space", "a.sc", "Euro", "x", "H", "d", "p"}
 SuccPool == {"f", "i", "l", "A", "N"}
 LigPool == {"fi", "ffi", "ff", "L", "a.sc"}
 Widths == {0, 1, 250, 500, 1000, 32767, -32768, -1}
@@ -32,7 +34,11 @@ Angles == {0, -12, 5, 90, -90}
 FontNames == {"Test-Regular", "X", "Times-Roman", "a.b_c"}
 FullNames == {"Test Regular", "X", "Times New Roman Bold Italic", "", "Single", "Demo 50% Condensed", "100%% %s %d"}
 Versions == {"", "001.000", "1.0 beta 2", "Version 2", "2.0 100%"}
-Notices == {"", "Copyright (c) 2024 Test Foundry. All rights reserved.", "x", "(c) A; B", "Notice Notice", "100% free %v"}
+RECURSIVE Rep(_, _)
+Rep(str, n) == IF n = 0 THEN "" ELSE str \o Rep(str, n - 1)
+\* the last one makes a line of more than 4096 bytes (a text value runs to the end of its line, however long)
+Notices == {"", "Copyright (c) 2024 Test Foundry. All rights reserved.", "x", "(c) A; B", "Notice Notice", "100% free %v",
+            Rep("Long notice, sentence after sentence. ", 130) \o "End."}
 KernNames == {"A", "f", "N"}
 KernVals == {-50, 0, 10, 32767, -32768}
 KernRecs == [l : KernNames, r : KernNames, adj : KernVals]
